@@ -630,7 +630,7 @@ func notInterested(t *Torrent) {
 // indicating whether the piece was actually added, and a channel that
 // will be closed when the piece is complete (nil if already complete).
 func requestPiece(t *Torrent, index uint32, prio int8, request bool, want bool) (<-chan struct{}, bool) {
-	if index > uint32(len(t.PieceHashes)) {
+	if index >= uint32(len(t.PieceHashes)) {
 		return nil, false
 	}
 
